@@ -19,7 +19,7 @@ HEADER = "From VQ Require Import Base LinAlg Report."
 SCALE = 16
 PATTERNS = ["upper-triangular", "symmetric", "general"]
 PAT_LIT = {"upper-triangular": "Upper", "symmetric": "Symmetric", "general": "General"}
-KINDS = ["ndarray", "csr", "coo_dup"]
+KINDS = ["ndarray", "csr", "coo_dup", "int_ndarray", "int_csr"]      # int_*: integer dtype when every entry is an integer
 
 
 # ---------------- running the implementation ----------------
@@ -28,6 +28,10 @@ def build_input(M, kind):
     import scipy.sparse as sp
     n = len(M)
     dense = np.array([[float(v) for v in row] for row in M], dtype=float).reshape(n, n)
+    if kind in ("int_ndarray", "int_csr"):
+        if all(v.denominator == 1 for row in M for v in row):
+            dense = np.array([[int(v) for v in row] for row in M], dtype=np.int64).reshape(n, n)   # the constant may still be fractional
+        kind = kind[4:]
     if kind == "ndarray":
         return dense
     if kind == "csr":
@@ -221,6 +225,9 @@ def gen_cases(rng, n_random):
             cases.append((M, c, pat, "ndarray", True, None))
         cases.append((M, c, "upper-triangular", "csr", True, F(0)))
         cases.append((M, c, "general", "coo_dup", False, None))
+        # integer-typed matrix with a fractional constant (values must not be coerced to the matrix dtype)
+        cases.append((M, c + F(1, 2), "upper-triangular", "int_csr", True, None))
+        cases.append((M, c + F(1, 4), "general", "int_ndarray", True, None))
     for _ in range(n_random):
         M, c = gen_matrix(rng)
         pat = rng.choice(PATTERNS)
